@@ -49,6 +49,10 @@ def scenarios(tier):
         out.append(Scenario('hist', n0=2, singleton=False, w=0.0, pat='slow', max_age=0, tier=tier, reject=k))
     # dense periodic checks (0.3 s): a kill's 0.1 s polling loop and the slow workers' deaths straddle check ticks
     out.append(Scenario('hist', n0=2, singleton=False, w=0.0, pat='slow', max_age=0, tier=tier, tick=0.3))
+    # both watchers capture their workers' output, and the bystander's worker can die too: a pipe of the one gets the
+    # descriptor number a pipe of the other just gave up (workers that ignore the stop signal are killed and closed in
+    # one step, before the loop has seen their pipes end)
+    out.append(Scenario('hist', n0=2, singleton=False, w=0.0, pat='stubborn', max_age=0, tier=tier, streams=True))
     return out
 
 
@@ -115,11 +119,16 @@ def run(scn, ch):
         if scn.max_age:
             opts.update(max_age=scn.max_age, max_age_variance=1)
         # 'z' is a bystander watcher: state hoisted to a shared scope would show up as a disturbance of z
+        zopts = {}
+        if scn.p.get('streams'):
+            # (a stream given by class name: the `options` reply the oracle reads stays encodable)
+            opts['stdout_stream'] = {'class': 'QueueStream'}
+            zopts['stdout_stream'] = {'class': 'QueueStream'}
         specs_ = [WSpec('a', numprocesses=scn.n0, behaviours=pattern(scn.pat), **opts)]
         if not scn.p.get('solo'):
-            specs_.append(WSpec('z', numprocesses=1, graceful_timeout=G))
+            specs_.append(WSpec('z', numprocesses=1, graceful_timeout=G, **zopts))
         world = World(ch, specs_, check_delay=scn.p.get('tick', 1.0))
-        world.deaths_only = ('a',)
+        world.deaths_only = ('a', 'z') if scn.p.get('streams') else ('a',)
         for hw in hook_world:
             world.hook_counters = hw.hook_counters
         if scn.p.get('fault'):
@@ -154,9 +163,11 @@ def run(scn, ch):
             return
         lz = live(world, 'z') if world.watcher('z') is not None else None
         zsig = [x for x in world.kernel.signal_log if x[3] != 'os.kill' and world.kernel.procs[x[1]].watcher == 'z']
-        res.check('C01.bystander_untouched', lz is None or (len(lz) == 1 and not zsig and world.watcher('z').numprocesses == 1),
-                  lambda: 'bystander watcher z: %d live workers, signals %s, numprocesses %s (after %s)'
-                  % (len(lz), zsig, world.watcher('z').numprocesses, [e.label for _, e in win.applied]),
+        res.check('C01.bystander_untouched', lz is None or (len(lz) == 1 and not zsig and world.watcher('z').numprocesses == 1 and
+                                                            sorted(world.watcher('z').processes) == [p.pid for p in lz]),
+                  lambda: 'bystander watcher z: %d live workers, of which it knows %s, signals %s, numprocesses %s (after %s)'
+                  % (len(lz), sorted(world.watcher('z').processes), zsig, world.watcher('z').numprocesses,
+                     [e.label for _, e in win.applied]),
                   where='watcher', nontrivial=bool(win.applied))
         lv = live(world, 'a')
         n = len(lv)
